@@ -20,6 +20,7 @@ import (
 	"github.com/taurusgroup/multi-party-sig/internal/vsym"
 	"github.com/taurusgroup/multi-party-sig/pkg/hash"
 	"github.com/taurusgroup/multi-party-sig/pkg/math/curve"
+	"github.com/taurusgroup/multi-party-sig/pkg/paillier"
 	"github.com/taurusgroup/multi-party-sig/pkg/zk"
 	zkaffg "github.com/taurusgroup/multi-party-sig/pkg/zk/affg"
 	zkenc "github.com/taurusgroup/multi-party-sig/pkg/zk/enc"
@@ -102,6 +103,120 @@ func H_C10_FacVerifyRange() {
 		vsym.Reach("fac-accepting-path")
 	}
 	vsym.Reach("fac-range-checked")
+}
+
+func unitBelow(x *saferith.Nat, n *saferith.Modulus) bool {
+	if x == nil {
+		return false
+	}
+	_, _, lt := x.CmpMod(n)
+	return lt == 1 && x.EqZero() != 1
+}
+
+// H_C10_AffpVerifyRange: zkaffp.Verify on an arbitrary proof never panics; acceptance implies the interval responses are
+// in range and the residue responses are non-zero residues of their moduli.
+func H_C10_AffpVerifyRange() {
+	group := curve.Secp256k1{}
+	prover, verifier := zk.ProverPaillierPublic, zk.VerifierPaillierPublic
+	Kv := verifier.EncWithNonce(vsym.SymInt("k", 256), vsym.SymNat("rho1", 2048))
+	Dv := verifier.EncWithNonce(vsym.SymInt("d", 256), vsym.SymNat("rho2", 2048))
+	Fp := prover.EncWithNonce(vsym.SymInt("f", 256), vsym.SymNat("rho3", 2048))
+	Xp := prover.EncWithNonce(vsym.SymInt("x", 256), vsym.SymNat("rho4", 2048))
+	public := zkaffp.Public{Kv: Kv, Dv: Dv, Fp: Fp, Xp: Xp, Prover: prover, Verifier: verifier, Aux: zk.Pedersen}
+	var proof *zkaffp.Proof
+	vsym.Havoc(&proof, "proof")
+	var ok bool
+	panicked := vsym.ExpectPanic(func() { ok = proof.Verify(group, hash.New(), public) })
+	vsym.Assert(!panicked, "zkaffp.Verify never panics on an arbitrary proof")
+	if !panicked && ok {
+		vsym.Assert(below(proof.Z1, 768), "accepted zkaffp proof: |z1| < 2^(l+eps)")
+		vsym.Assert(below(proof.Z2, 1792), "accepted zkaffp proof: |z2| < 2^(l'+eps)")
+		vsym.Assert(unitBelow(proof.W, verifier.N()) && unitBelow(proof.Wx, prover.N()) && unitBelow(proof.Wy, prover.N()), "accepted zkaffp proof: w, wx, wy are non-zero residues")
+		vsym.Reach("affp-accepting-path")
+	}
+	vsym.Reach("affp-range-checked")
+}
+
+// H_C10_EncelgVerifyRange: the same for zkencelg.
+func H_C10_EncelgVerifyRange() {
+	group := curve.Secp256k1{}
+	pk := zk.ProverPaillierPublic
+	C := pk.EncWithNonce(vsym.SymInt("x", 256), vsym.SymNat("rho", 2048))
+	G := group.NewBasePoint()
+	public := zkencelg.Public{C: C, A: G, B: G.Add(G), X: G.Add(G).Add(G), Prover: pk, Aux: zk.Pedersen}
+	var proof *zkencelg.Proof
+	vsym.Havoc(&proof, "proof")
+	var ok bool
+	panicked := vsym.ExpectPanic(func() { ok = proof.Verify(hash.New(), public) })
+	vsym.Assert(!panicked, "zkencelg.Verify never panics on an arbitrary proof")
+	if !panicked && ok {
+		vsym.Assert(below(proof.Z1, 768), "accepted zkencelg proof: |z1| < 2^(l+eps)")
+		vsym.Assert(unitBelow(proof.Z2, pk.N()), "accepted zkencelg proof: z2 is a non-zero residue")
+		vsym.Reach("encelg-accepting-path")
+	}
+	vsym.Reach("encelg-range-checked")
+}
+
+// H_C10_MulstarVerifyRange: the same for zkmulstar.
+func H_C10_MulstarVerifyRange() {
+	group := curve.Secp256k1{}
+	verifier := zk.VerifierPaillierPublic
+	C := verifier.EncWithNonce(vsym.SymInt("c", 256), vsym.SymNat("rho1", 2048))
+	D := verifier.EncWithNonce(vsym.SymInt("d", 256), vsym.SymNat("rho2", 2048))
+	public := zkmulstar.Public{C: C, D: D, X: group.NewBasePoint(), Verifier: verifier, Aux: zk.Pedersen}
+	var proof *zkmulstar.Proof
+	vsym.Havoc(&proof, "proof")
+	var ok bool
+	panicked := vsym.ExpectPanic(func() { ok = proof.Verify(group, hash.New(), public) })
+	vsym.Assert(!panicked, "zkmulstar.Verify never panics on an arbitrary proof")
+	if !panicked && ok {
+		vsym.Assert(below(proof.Z1, 768), "accepted zkmulstar proof: |z1| < 2^(l+eps)")
+		vsym.Assert(unitBelow(proof.W, verifier.N()), "accepted zkmulstar proof: w is a non-zero residue")
+		vsym.Reach("mulstar-accepting-path")
+	}
+	vsym.Reach("mulstar-range-checked")
+}
+
+// H_C10_DecMulNthVerify: zkdec, zkmul and zknth (no interval responses): Verify on an arbitrary proof never panics and
+// acceptance implies the residue responses are non-zero residues of their moduli.
+func H_C10_DecMulNthVerify() {
+	group := curve.Secp256k1{}
+	pk := zk.ProverPaillierPublic
+	ct := func(name string) *paillier.Ciphertext { return pk.EncWithNonce(vsym.SymInt(name, 256), vsym.SymNat(name+"rho", 2048)) }
+	switch vsym.Choose("proof", 3) {
+	case 0:
+		x := group.NewScalar().SetNat(new(saferith.Nat).SetUint64(7))
+		var proof *zkdec.Proof
+		vsym.Havoc(&proof, "proof")
+		var ok bool
+		panicked := vsym.ExpectPanic(func() { ok = proof.Verify(hash.New(), zkdec.Public{C: ct("c"), X: x, Prover: pk, Aux: zk.Pedersen}) })
+		vsym.Assert(!panicked, "zkdec.Verify never panics on an arbitrary proof")
+		if !panicked && ok {
+			vsym.Assert(unitBelow(proof.W, pk.N()), "accepted zkdec proof: w is a non-zero residue")
+			vsym.Reach("dec-accepting-path")
+		}
+	case 1:
+		var proof *zkmul.Proof
+		vsym.Havoc(&proof, "proof")
+		var ok bool
+		panicked := vsym.ExpectPanic(func() { ok = proof.Verify(group, hash.New(), zkmul.Public{X: ct("x"), Y: ct("y"), C: ct("c"), Prover: pk}) })
+		vsym.Assert(!panicked, "zkmul.Verify never panics on an arbitrary proof")
+		if !panicked && ok {
+			vsym.Assert(unitBelow(proof.U, pk.N()) && unitBelow(proof.V, pk.N()), "accepted zkmul proof: u, v are non-zero residues")
+			vsym.Reach("mul-accepting-path")
+		}
+	case 2:
+		var proof *zknth.Proof
+		vsym.Havoc(&proof, "proof")
+		var ok bool
+		panicked := vsym.ExpectPanic(func() { ok = proof.Verify(hash.New(), zknth.Public{N: pk, R: vsym.SymNat("r", 4096)}) })
+		vsym.Assert(!panicked, "zknth.Verify never panics on an arbitrary proof")
+		if !panicked && ok {
+			vsym.Assert(unitBelow(proof.Z, pk.N()), "accepted zknth proof: z is a non-zero residue")
+			vsym.Reach("nth-accepting-path")
+		}
+	}
+	vsym.Reach("decmulnth-checked")
 }
 
 // H_C10_EmptyShapes: every proof verifier of pkg/zk, given the shapes a CBOR decoder produces from a message that simply
